@@ -11,6 +11,7 @@ import (
 	"os"
 	"path/filepath"
 	"regexp"
+	"sort"
 	"strings"
 	"sync"
 	"time"
@@ -20,6 +21,7 @@ import (
 
 	"verif/harness/internal/agent"
 	"verif/harness/internal/fakebess"
+	"verif/harness/internal/fakep4"
 	"verif/harness/internal/pfcpx"
 )
 
@@ -34,6 +36,9 @@ type World struct {
 	AgentBin      string
 	Cfg           agent.Cfg
 	Bess          *fakebess.Server
+	P4            *fakep4.Server // the switch of the UP4 datapath (nil on BESS)
+	p4n           *p4names
+	p4Seen        int // updates already reported in a trace line
 	Agent         *agent.Agent
 	Peers         map[string]*pfcpx.Peer
 	UpTok         *pfcpx.Toks
@@ -107,6 +112,30 @@ func NewWorld(dir, agentBin, tracePath string, cfg agent.Cfg, run int) (*World, 
 	w.Cfg.BessAddr = addr
 	w.AccessIP = ifaceIP("lo")
 	w.CoreIP = ifaceIP("eth0")
+
+	if cfg.Datapath == "up4" {
+		info, err := fakep4.LoadInfo(P4InfoPath)
+		if err != nil {
+			return nil, fmt.Errorf("P4Info: %w", err)
+		}
+
+		w.P4 = fakep4.New(info)
+		w.p4n = indexInfo(info)
+
+		paddr, err := w.P4.Start("127.0.0.1:0")
+		if err != nil {
+			return nil, err
+		}
+
+		host, port, _ := net.SplitHostPort(paddr)
+		w.Cfg.P4Server, w.Cfg.P4Port = host, port
+
+		if ip, _, err := net.ParseCIDR(cfg.P4AccessIP); err == nil {
+			w.AccessIP = pfcpx.IP4(ip)
+		}
+
+		w.CoreIP = 0
+	}
 	w.N4IP = pfcpx.IP4(net.ParseIP(cfg.N4Addr))
 
 	f, err := os.OpenFile(tracePath, os.O_APPEND|os.O_CREATE|os.O_WRONLY, 0o644)
@@ -131,6 +160,10 @@ func (w *World) Close() {
 	}
 
 	w.Bess.Stop()
+
+	if w.P4 != nil {
+		w.P4.Stop()
+	}
 
 	if w.EMSock != nil {
 		w.EMSock.Close()
@@ -249,7 +282,42 @@ func (w *World) cfgJSON() map[string]interface{} {
 		"dp": w.Cfg.Datapath, "node": "nU", "n4": pfcpx.V32(uint64(w.N4IP)), "access": pfcpx.V32(uint64(w.AccessIP)),
 		"core": pfcpx.V32(uint64(w.CoreIP)), "ueAlloc": w.Cfg.UEIPAlloc, "poolNet": pfcpx.V32(uint64(poolNet)), "poolLen": poolLen,
 		"endMarker": w.Cfg.EndMarker, "hb": w.Cfg.HBTimer, "qos": qos, "ddnMs": map[bool]int{true: w.DdnMs, false: 20000}[w.DdnMs > 0],
+		"up4": w.up4CfgJSON(),
 	}
+}
+
+// dpObs adds the datapath observation of a step to a trace line: the table image, the number of commands
+// (updates) received so far and how many of them failed; on UP4 also the updates since the previous line.
+func (w *World) dpObs(ev map[string]interface{}) {
+	if w.P4 == nil {
+		t := w.Bess.Snapshot()
+		ev["dp"] = w.dpJSON()
+		ev["cmds"] = t.Cmds
+		ev["errs"] = t.Errs
+
+		return
+	}
+
+	ev["dp"] = w.p4JSON()
+	n, bad := w.p4Counts()
+	ev["cmds"], ev["errs"] = n, bad
+
+	ws := []map[string]interface{}{}
+	for _, u := range w.P4.UpdatesSince(w.p4Seen) {
+		ws = append(ws, writeJSON(u))
+	}
+
+	w.p4Seen = n
+	ev["writes"] = ws
+}
+
+func (w *World) dpIdle(quiet, max time.Duration) {
+	if w.P4 != nil {
+		w.P4.WaitIdle(quiet, max)
+		return
+	}
+
+	w.Bess.WaitIdle(quiet, max)
 }
 
 // StartAgent starts a new incarnation of the agent and records the start event.
@@ -341,8 +409,32 @@ func (w *World) StartAgent() error {
 
 	_ = w.Agent.Report(true)
 
-	w.Bess.WaitIdle(5*time.Millisecond, 2*time.Second)
-	w.emit(map[string]interface{}{"ev": "start", "cfg": w.cfgJSON(), "dp": w.dpJSON(), "cmds": w.Bess.Snapshot().Cmds})
+	if w.P4 != nil {
+		// the plug-in connects, clears the tables and writes the interfaces entries on its own schedule
+		for i := 0; i < 1500 && w.P4.RpcCount() == 0 && w.Agent.Alive(); i++ {
+			time.Sleep(2 * time.Millisecond)
+		}
+
+		for i := 0; i < 1500 && w.Agent.Alive(); i++ {
+			if sn := w.snapJSON(); sn["connected"] == true {
+				break
+			}
+
+			time.Sleep(4 * time.Millisecond)
+		}
+	}
+
+	w.dpIdle(5*time.Millisecond, 2*time.Second)
+
+	ev := map[string]interface{}{"ev": "start", "cfg": w.cfgJSON()}
+	w.dpObs(ev)
+
+	if w.P4 != nil {
+		ev["p4info"] = InfoJSON(w.P4.Info)
+		ev["snap"] = w.snapJSON()
+	}
+
+	w.emit(ev)
 
 	return nil
 }
@@ -571,6 +663,31 @@ func (w *World) snapJSON() map[string]interface{} {
 		Conns     map[string]struct {
 			Seids []string `json:"seids"`
 		} `json:"conns"`
+		Up4 *struct {
+			CtrOut      []int `json:"ctrOut"`
+			AppCellOut  []int `json:"appCellOut"`
+			SessCellOut []int `json:"sessCellOut"`
+			PeerOut     []int `json:"peerOut"`
+			PeerDup     []int `json:"peerDup"`
+			AppIDOut    []int `json:"appIdOut"`
+			AppIDDup    []int `json:"appIdDup"`
+			Meters      []struct {
+				Fseid string `json:"fseid"`
+				Qer   int    `json:"qer"`
+				Type  int    `json:"type"`
+				Ul    int    `json:"ul"`
+				Dl    int    `json:"dl"`
+			} `json:"meters"`
+			Peers []struct {
+				ID    int    `json:"id"`
+				Dst   string `json:"dst"`
+				Users int    `json:"users"`
+			} `json:"peers"`
+			Apps []struct {
+				ID    int `json:"id"`
+				Users int `json:"users"`
+			} `json:"apps"`
+		} `json:"up4"`
 	}
 
 	if json.Unmarshal([]byte(raw), &sn) != nil {
@@ -622,7 +739,46 @@ func (w *World) snapJSON() map[string]interface{} {
 		g = 65535
 	}
 
-	return map[string]interface{}{"has": true, "ipHeld": held, "ipFree": free, "teidCount": tc, "store": store, "gauge": g, "connected": sn.Connected}
+	out := map[string]interface{}{"has": true, "ipHeld": held, "ipFree": free, "teidCount": tc, "store": store, "gauge": g, "connected": sn.Connected}
+
+	if u := sn.Up4; u != nil {
+		il := func(x []int) []int {
+			if x == nil {
+				return []int{}
+			}
+
+			sort.Ints(x)
+
+			return x
+		}
+
+		meters := []map[string]interface{}{}
+
+		for _, m := range u.Meters {
+			var seid uint64
+			fmt.Sscanf(m.Fseid, "%d", &seid)
+			meters = append(meters, map[string]interface{}{"u": w.UpTok.Get(seid), "qer": m.Qer, "type": m.Type, "ul": m.Ul, "dl": m.Dl})
+		}
+
+		peers := []map[string]interface{}{}
+
+		for _, p := range u.Peers {
+			var dst uint64
+			fmt.Sscanf(p.Dst, "%d", &dst)
+			peers = append(peers, map[string]interface{}{"id": p.ID, "dst": pfcpx.V32(dst), "users": p.Users})
+		}
+
+		apps := []map[string]interface{}{}
+		for _, a := range u.Apps {
+			apps = append(apps, map[string]interface{}{"id": a.ID, "users": a.Users})
+		}
+
+		out["up4"] = map[string]interface{}{"ctrOut": il(u.CtrOut), "appCellOut": il(u.AppCellOut), "sessCellOut": il(u.SessCellOut),
+			"peerOut": il(u.PeerOut), "peerDup": il(u.PeerDup), "appIdOut": il(u.AppIDOut), "appIdDup": il(u.AppIDDup),
+			"meters": meters, "peers": peers, "apps": apps}
+	}
+
+	return out
 }
 
 // DropNotifySocket closes the notify listener and removes its socket file: the next incarnation of the agent
